@@ -21,7 +21,8 @@ KINDS = ["KDupStruct", "KDupTask", "KDupAttr", "KDupTaskIn", "KDupCallOut", "KAr
          "KNoStartTask", "KUnknownTaskOut", "KOutTypeMismatch", "KInTypeMismatch", "KInLen", "KOutLen",
          "KUnknownVarInput", "KNoAttribute", "KNotAStruct", "KUnknownVariable", "KUnknownStruct",
          "KUnknownAttrInLit", "KWrongTypeStruct", "KWrongTypePrim", "KWrongTypeArray", "KArrayElem",
-         "KArrayLength", "KMissingAttr", "KParLoop", "KNotBoolean", "KCmpTypes", "KArith", "KUnknownTask"]
+         "KArrayLength", "KMissingAttr", "KParLoop", "KNotBoolean", "KCmpTypes", "KArith", "KUnknownTask",
+         "KIndexMismatch", "KLimitNotNumber", "KRecursion"]
 
 # message text -> message kind (one entry per print_error call site); order matters
 MSG_TABLE = [
@@ -55,6 +56,11 @@ MSG_TABLE = [
     ("KCmpTypes", r"^Types of right and left side of the comparison dont match\. "),
     ("KArith", r"^Right and left side have to be numbers when using arithmetic operators$"),
     ("KUnknownTask", r"^Unknown Task '.*'$"),
+    ("KIndexMismatch", r"^Attribute '.*' is (not an Array|an Array and needs an index)$"),
+    ("KLimitNotNumber", r"^The limit of a counting loop has to be a number$"),
+    ("KRecursion", r"^The call of Task '.*' leads back to Task '.*' \(recursion is not supported\)$"),
+    # printed by the visitor for a literal json.loads rejects; no AST, hence no model kind
+    ("KJsonInvalid", r"^The struct instantiation is not valid JSON$"),
 ]
 MSG_RE = [(k, re.compile(p, re.S)) for k, p in MSG_TABLE]
 
